@@ -258,6 +258,15 @@ class Driver:
                         ivf = v
                     elif fld['n'] == 'key':
                         keyf = v
+            # the key bytes the factory holds (pointer to, or its own copy of, the operation key)
+            kv = None
+            if keyf is not None and keyf[0] == 'p' and keyf[2] and isinstance(keyf[2][-1], int):
+                kv = tuple(show(I2.load(st2, (keyf[1], keyf[2][:-1] + (keyf[2][-1] + j,)))) for j in range(16))
+            elif keyf is None and this is not None and this[0] == 'p':
+                for fld in prog.records[self.factory['rec']]['fields']:
+                    if fld['n'] == 'key' and prog.type(fld['t']).get('k') == 'array':
+                        kv = tuple(show(I2.load(st2, (this[1], this[2] + (fld['d'][2:], j)))) for j in range(16))
+            st2.comps[('streamkey', k)] = kv
             log(st2, 'STREAM', k, tuple(args), ivf, keyf, nloc(n))
             return [(st2, P(('stream', k), ()))]
         mdl2[self.factory['q']] = m_factory
@@ -291,6 +300,9 @@ class Driver:
                     st.mem[(SET, (nm,))] = sym('htype')
                 elif t.get('k') == 'bool':
                     st.mem[(SET, (nm,))] = C(1 if no_echo else 0) if no_echo is not None else R(0, 1)
+        for j in range(16):
+            st.sym['$key%d' % j] = (0, 255)
+            st.mem[(KEY, (j,))] = sym('$key%d' % j)
         fin = NULL if fin_null else P(FIN, ())
         args = []
         for p in self.ctor['params']:
